@@ -622,7 +622,7 @@ def target_peak_area():
                 return (sym("I"), sym("abserr"))
             asked = []
 
-            class Peak:
+            class Peak(O.auto_methods(PEAKS, "DRTPeak", {})):
                 def _get_gamma(self, x):
                     asked.append(("log10", x))
                     return sym("gamma")
@@ -663,8 +663,9 @@ def target_peak_area():
         def skew(x=None, h=None, p=None, a=None, s=None):
             xs.append((x, h, p, a, s))
             return sym("sn")
-        me = type("P", (), {k: sym(k) for k in ("position", "height", "alpha", "sigma", "x_offset", "x_scale", "y_offset", "y_scale")})()
         ns = dict(_skew_normal=skew, log=lambda t: sym("lt"), log10=lambda t: sym("lt"))
+        # (a stand-in peak: the eight fields; any helper method the real class has is compiled from the working tree on first use)
+        me = type("P", (O.auto_methods(PEAKS, "DRTPeak", ns),), {k: sym(k) for k in ("position", "height", "alpha", "sigma", "x_offset", "x_scale", "y_offset", "y_scale")})()
         O.load(PEAKS, ["DRTPeak.get_gammas", "DRTPeak._get_gamma"], ns)
         g1 = ns["get_gammas"](me, "tau")
         g2 = ns["_get_gamma"](me, sym("lt"))
